@@ -420,6 +420,19 @@ func (w *Worker) compare(cs *Case, res *StepResult, aspects int) []string {
 	if aspects&AspI != 0 && got.I != exp.I {
 		d = append(d, fmt.Sprintf("I: want %02X got %02X", exp.I, got.I))
 	}
+	if aspects&AspState != 0 {
+		// the device fields belong to the embedder: a Step must leave them as they were
+		if m, ok := w.cpu.Memory.(*obs.Mem); !ok || m != w.imem {
+			d = append(d, "CPU.Memory was replaced during the Step")
+		}
+		if cs.Env != 2 {
+			if io, ok := w.cpu.IO.(*obs.IO); !ok || io != w.iio {
+				d = append(d, "CPU.IO was replaced during the Step")
+			}
+		} else if w.cpu.IO != nil {
+			d = append(d, "CPU.IO was nil before the Step and is not afterwards")
+		}
+	}
 	if aspects&AspR != 0 {
 		if !invalid && got.R != exp.R && got.R != out.RAlt {
 			d = append(d, fmt.Sprintf("R: want %02X got %02X (pre %02X, %d opcode fetches)", exp.R, got.R, cs.S.R, out.Inst.M1))
